@@ -156,18 +156,46 @@ def _num_terms(a, b):
     return ta, tb
 
 
-def py_floordiv(a, b):
+_CUR = [None]  # the path context currently executing (set by symexec.explore)
+
+
+def div_lemmas(a, b):
+    """valid instances about the native term `a div b` for a *symbolic* positive divisor: they make
+    the ranges that occur with index normalisation (v % n for -n <= v < 2n) linear for the solver"""
+    ctx = _CUR[0]
+    bs = z3.simplify(b)
+    if ctx is None or z3.is_int_value(bs):
+        return
+    key = ("divlem", a.get_id(), b.get_id())
+    if key in ctx.ghost:
+        return
+    ctx.ghost[key] = (a, b)
+    q = a / b
+    ctx.add_pc(z3.Implies(z3.And(b > 0, a >= 0, a < b), q == 0))
+    ctx.add_pc(z3.Implies(z3.And(b > 0, a < 0, a >= -b), q == -1))
+    ctx.add_pc(z3.Implies(z3.And(b > 0, a >= b, a < 2 * b), q == 1))
+
+
+def py_floordiv(a, b, lemmas=False):
     """Python floor division on z3 Int terms (z3 `div` is floor only for positive divisors)."""
-    if z3.is_int_value(b):
-        if b.as_long() > 0:
-            return a / b
-        if b.as_long() < 0:
-            return (-a) / (-b)
+    bs = z3.simplify(b)
+    if z3.is_int_value(bs):
+        if bs.as_long() > 0:
+            return a / bs
+        if bs.as_long() < 0:
+            return (-a) / (-bs)
+    if lemmas:
+        div_lemmas(a, b)
     return z3.If(b > 0, a / b, (-a) / (-b))
 
 
-def py_mod(a, b):
-    return a - b * py_floordiv(a, b)
+def py_mod(a, b, lemmas=False):
+    generic = a - b * py_floordiv(a, b, lemmas)
+    bs = z3.simplify(b)
+    if lemmas and not z3.is_int_value(bs):
+        # same value, written so that the ranges met with index normalisation are linear
+        return z3.If(z3.And(b > 0, a >= 0, a < b), a, z3.If(z3.And(b > 0, a < 0, a >= -b), a + b, generic))
+    return generic
 
 
 class VNum(V):
@@ -249,12 +277,12 @@ class VNum(V):
             if not both_int:
                 raise Undecided("floor division of reals")
             ctx.require_nonzero(b, "integer division by zero")
-            return VNum(py_floordiv(a, b))
+            return VNum(py_floordiv(a, b, True))
         if op == "%":
             if not both_int:
                 raise Undecided("modulo of reals")
             ctx.require_nonzero(b, "integer modulo by zero")
-            return VNum(py_mod(a, b))
+            return VNum(py_mod(a, b, True))
         if op == "**":
             c = y.concrete()
             if c is not None and isinstance(c, int) and 0 <= c <= 8:
@@ -765,31 +793,20 @@ class VSlice(V):
     def _indices(self, it, ctx, a, k):
         """slice.indices(n) for step > 0 (CPython semantics; step <= 0 is outside the supported subset)"""
         n = a[0].t
-
-        def get(x):
-            if isinstance(x, VAny):
-                x = x.force(it, ctx)
-            if x is NONE:
-                return None
-            if isinstance(x, VNum) and x.is_int:
-                return x.t
-            raise PyRaise(VExc("TypeError", "slice indices must be integers or None"))
-
-        start, stop, step = get(self.start), get(self.stop), get(self.step)
-        if step is None:
-            step = z3.IntVal(1)
-        elif ctx.branch(step == 0):
+        step = opt_int_term(it, ctx, self.step, lambda: z3.IntVal(1))
+        if ctx.branch(step == 0):
             raise PyRaise(VExc("ValueError", "slice step cannot be zero"))
-        elif not ctx.branch(step > 0):
+        if not ctx.branch(step > 0):
             raise Undecided("slice.indices with negative step")
 
         def clampn(v):
             v = z3.If(v < 0, v + n, v)
             return z3.If(v < 0, 0, z3.If(v > n, n, v))
 
-        st = z3.IntVal(0) if start is None else clampn(start)
-        en = n if stop is None else clampn(stop)
-        return VTuple([VNum(z3.simplify(st)), VNum(z3.simplify(en)), VNum(step)])
+        st = opt_int_term(it, ctx, self.start, lambda: z3.IntVal(0), clampn)
+        en = opt_int_term(it, ctx, self.stop, lambda: n, clampn)
+        out = [VNum(ctx.define("si_start", st)), VNum(ctx.define("si_stop", en)), VNum(ctx.define("si_step", step))]
+        return VTuple(out)
 
     def py_eq(self, it, ctx, other):
         if not isinstance(other, VSlice):
@@ -801,6 +818,23 @@ class VSlice(V):
 
     def __repr__(self):
         return self.describe()
+
+
+def opt_int_term(it, ctx, x, default, f=lambda v: v):
+    """z3 Int term for an int-or-None value without forking: If(is_none, default, f(value))"""
+    if x is NONE:
+        return default()
+    if isinstance(x, VNum) and x.is_int:
+        return f(x.t)
+    if isinstance(x, VAny) and hasattr(x, "i"):
+        return z3.If(Val.is_none(x.t), default(), f(x.i))
+    if isinstance(x, VAny):
+        x = x.force(it, ctx)
+        return opt_int_term(it, ctx, x, default, f)
+    nat = getattr(x, "natoms", None)
+    if nat is not None and nat() == 0 and x.sort == "int":
+        return f(x.elem([]))
+    raise PyRaise(VExc("TypeError", "slice indices must be integers or None"))
 
 
 class VExc(V):
